@@ -436,3 +436,232 @@ fn c15_term_climb_as_extends_right() {
     as_pair(24);
     kani::cover!(true);
 }
+
+// ---- four operands: `a op1 b op2 c op3 d` --------------------------------------------------------
+/// Tree shape as a number: a leaf is 1, a node is an injective combination of its children and operator.
+#[derive(Clone, Copy, PartialEq, Eq)]
+struct Tr(u64);
+impl Expr<VO> for Tr {
+    fn from_op(lhs: Self, op: VO, rhs: Self) -> Self {
+        Tr((lhs.0 * 64 + rhs.0) * 32 + op.0 as u64 + 2)
+    }
+}
+fn node(l: u64, k: u8, r: u64) -> u64 {
+    (l * 64 + r) * 32 + k as u64 + 2
+}
+/// Independent reference: split at the operator that binds loosest; among equals the RIGHTmost for
+/// left-associative levels and the LEFTmost for right-associative ones; recurse on both sides.
+fn reference(ops: [u8; 3], lo: usize, hi: usize) -> u64 {
+    // operands lo..=hi, operators lo..hi
+    if lo == hi {
+        return 1;
+    }
+    let mut best = lo;
+    let mut i = lo + 1;
+    while i < hi {
+        let (li, lb) = (level(ops[i]), level(ops[best]));
+        if li < lb || (li == lb && !right_assoc(ops[i])) {
+            best = i;
+        }
+        i += 1;
+    }
+    node(reference(ops, lo, best), ops[best], reference(ops, best + 1, hi))
+}
+fn quad(k1: u8, k2: u8, k3: u8) {
+    let v = |k: u8| VO(k, level(k) as usize, right_assoc(k));
+    let tail = [(v(k1), Tr(1)), (v(k2), Tr(1)), (v(k3), Tr(1))];
+    let t = prec_climb::climb(Tr(1), tail);
+    assert!(t.0 == reference([k1, k2, k3], 0, 3));
+}
+
+//@ tier: quick
+//@ inst: O = VO carrying the table's level and associativity, T = Tr (injective tree code)
+//@ funcs: prec_climb::climb, prec_climb::climb1
+//@ bounds: `a op1 b op2 c op3 d` for all 27 triples over { + - * } (concrete; the thorough harness c15_climb_quadruples_more adds { | = * } and { , and < })
+//@ asserts: the tree equals an independent reference parse (split at the loosest operator, rightmost among equal left-associative ones, leftmost among right-associative ones) -- e.g. `10 - 2 * 3 - 1` is `(10 - (2 * 3)) - 1`
+#[kani::proof]
+#[kani::unwind(5)]
+fn c15_climb_quadruples_match_reference() {
+    quad(20, 20, 20);
+    quad(20, 20, 21);
+    quad(20, 20, 22);
+    quad(20, 21, 20);
+    quad(20, 21, 21);
+    quad(20, 21, 22);
+    quad(20, 22, 20);
+    quad(20, 22, 21);
+    quad(20, 22, 22);
+    quad(21, 20, 20);
+    quad(21, 20, 21);
+    quad(21, 20, 22);
+    quad(21, 21, 20);
+    quad(21, 21, 21);
+    quad(21, 21, 22);
+    quad(21, 22, 20);
+    quad(21, 22, 21);
+    quad(21, 22, 22);
+    quad(22, 20, 20);
+    quad(22, 20, 21);
+    quad(22, 20, 22);
+    quad(22, 21, 20);
+    quad(22, 21, 21);
+    quad(22, 21, 22);
+    quad(22, 22, 20);
+    quad(22, 22, 21);
+    quad(22, 22, 22);
+    kani::cover!(true);
+}
+
+//@ tier: thorough
+//@ timeout: 1800
+//@ inst: O = VO carrying the table's level and associativity, T = Tr (injective tree code)
+//@ funcs: prec_climb::climb, prec_climb::climb1
+//@ bounds: `a op1 b op2 c op3 d` for all 27 triples over { + - * }, all 27 over { | = * } and all 27 over { , and < } (81 concrete triples: left- and right-associative levels, a tighter operator between two of equal level)
+//@ asserts: the tree equals an independent reference parse (split at the loosest operator, rightmost among equal left-associative ones, leftmost among right-associative ones) -- e.g. `10 - 2 * 3 - 1` is `(10 - (2 * 3)) - 1`
+#[kani::proof]
+#[kani::unwind(5)]
+fn c15_climb_quadruples_more() {
+    quad(20, 20, 20);
+    quad(20, 20, 21);
+    quad(20, 20, 22);
+    quad(20, 21, 20);
+    quad(20, 21, 21);
+    quad(20, 21, 22);
+    quad(20, 22, 20);
+    quad(20, 22, 21);
+    quad(20, 22, 22);
+    quad(21, 20, 20);
+    quad(21, 20, 21);
+    quad(21, 20, 22);
+    quad(21, 21, 20);
+    quad(21, 21, 21);
+    quad(21, 21, 22);
+    quad(21, 22, 20);
+    quad(21, 22, 21);
+    quad(21, 22, 22);
+    quad(22, 20, 20);
+    quad(22, 20, 21);
+    quad(22, 20, 22);
+    quad(22, 21, 20);
+    quad(22, 21, 21);
+    quad(22, 21, 22);
+    quad(22, 22, 20);
+    quad(22, 22, 21);
+    quad(22, 22, 22);
+    quad(0, 0, 0);
+    quad(0, 0, 3);
+    quad(0, 0, 22);
+    quad(0, 3, 0);
+    quad(0, 3, 3);
+    quad(0, 3, 22);
+    quad(0, 22, 0);
+    quad(0, 22, 3);
+    quad(0, 22, 22);
+    quad(3, 0, 0);
+    quad(3, 0, 3);
+    quad(3, 0, 22);
+    quad(3, 3, 0);
+    quad(3, 3, 3);
+    quad(3, 3, 22);
+    quad(3, 22, 0);
+    quad(3, 22, 3);
+    quad(3, 22, 22);
+    quad(22, 0, 0);
+    quad(22, 0, 3);
+    quad(22, 0, 22);
+    quad(22, 3, 0);
+    quad(22, 3, 3);
+    quad(22, 3, 22);
+    quad(22, 22, 0);
+    quad(22, 22, 3);
+    quad(22, 22, 22);
+    quad(1, 1, 1);
+    quad(1, 1, 13);
+    quad(1, 1, 16);
+    quad(1, 13, 1);
+    quad(1, 13, 13);
+    quad(1, 13, 16);
+    quad(1, 16, 1);
+    quad(1, 16, 13);
+    quad(1, 16, 16);
+    quad(13, 1, 1);
+    quad(13, 1, 13);
+    quad(13, 1, 16);
+    quad(13, 13, 1);
+    quad(13, 13, 13);
+    quad(13, 13, 16);
+    quad(13, 16, 1);
+    quad(13, 16, 13);
+    quad(13, 16, 16);
+    quad(16, 1, 1);
+    quad(16, 1, 13);
+    quad(16, 1, 16);
+    quad(16, 13, 1);
+    quad(16, 13, 13);
+    quad(16, 13, 16);
+    quad(16, 16, 1);
+    quad(16, 16, 13);
+    quad(16, 16, 16);
+    kani::cover!(true);
+}
+
+fn as_as(k3: u8) {
+    // a as $x | b as $x | c OP d
+    let mut tail = [
+        (real(2), Term::<&'static str>::Id),
+        (real(2), Term::Id),
+        (real(k3), Term::Id),
+    ]
+    .into_iter();
+    let t = Term::<&'static str>::Id.climb(&mut tail);
+    match &t {
+        Term::BinOp(l, BinaryOp::Pipe(Some(_)), r) => {
+            assert!(matches!(**l, Term::Id));
+            match &**r {
+                Term::BinOp(l2, BinaryOp::Pipe(Some(_)), r2) => {
+                    assert!(matches!(**l2, Term::Id) && matches!(**r2, Term::BinOp(..)));
+                }
+                _ => panic!("the body of the outer binding must be the inner binding"),
+            }
+        }
+        _ => panic!("`a as $x | b as $y | c op d` must be a binding"),
+    }
+    core::mem::forget((t, tail));
+}
+
+//@ tier: quick
+//@ inst: S = &'static str; leaves are `Term::Id`
+//@ funcs: Term::climb, prec_climb::climb
+//@ bounds: `a as $x | b as $y | c | d` built as real Term/BinaryOp values (one harness per following operator: `|`, `,`, `+`)
+//@ asserts: both bindings extend as far right as possible: the tree is `a as $x | (b as $y | (c | d))`
+#[kani::proof]
+#[kani::unwind(6)]
+fn c15_term_climb_nested_as_pipe() {
+    as_as(0);
+    kani::cover!(true);
+}
+
+//@ tier: quick
+//@ inst: S = &'static str; leaves are `Term::Id`
+//@ funcs: Term::climb, prec_climb::climb
+//@ bounds: `a as $x | b as $y | c , d` built as real Term/BinaryOp values (one harness per following operator: `|`, `,`, `+`)
+//@ asserts: both bindings extend as far right as possible: the tree is `a as $x | (b as $y | (c , d))`
+#[kani::proof]
+#[kani::unwind(6)]
+fn c15_term_climb_nested_as_comma() {
+    as_as(1);
+    kani::cover!(true);
+}
+
+//@ tier: quick
+//@ inst: S = &'static str; leaves are `Term::Id`
+//@ funcs: Term::climb, prec_climb::climb
+//@ bounds: `a as $x | b as $y | c + d` built as real Term/BinaryOp values (one harness per following operator: `|`, `,`, `+`)
+//@ asserts: both bindings extend as far right as possible: the tree is `a as $x | (b as $y | (c + d))`
+#[kani::proof]
+#[kani::unwind(6)]
+fn c15_term_climb_nested_as_plus() {
+    as_as(20);
+    kani::cover!(true);
+}
+
